@@ -483,7 +483,7 @@ def run(ctx, lean):
     quick = ctx.tier == 'quick'
     rng = ctx.rng('tie')
     nr = ctx.nprng('tie')
-    ntab = 36 * ctx.scale
+    ntab = 80 * ctx.scale
     for t in range(ntab):
         case = make_case(rng, nr, quick)
         ns = [1, rng.randint(2, 200), rng.choice([2, 3, 5, 10, 50, 100, 200])]
@@ -702,12 +702,12 @@ def search(ctx, deep):
     rng = ctx.rng('search')
     nr = ctx.nprng('search')
     quick = ctx.tier == 'quick'
-    ntab = (10 if quick else 30) if deep else 2
+    ntab = (10 if quick else 30) if deep else 6
     stats = {'tables': 0, 'schema_checks': 0, 'ks_tests': 0, 'kendall_exact': 0, 'kendall_value': 0,
              'rank_preservation': 0, 'recovery_experiments': 0, 'failures': 0, 'deep': deep, 'max_ks': 0.0,
              'max_tau_dev': 0.0, 'n_big': N_BIG, 'dkw_eps': dkw_eps(N_BIG), 'tau_eps': hoeffding_tau_eps(N_BIG)}
     for t in range(ntab):
-        case = make_case(rng, nr, quick=True, allow_kde=(deep and t % 3 == 0))
+        case = make_case(rng, nr, quick=True, allow_kde=(t % 3 == 0))
         oracle_case(ctx, case, stats, schema_ns=[1, rng.randint(2, 200)], big=True)
     if deep:
         for t in range(3 if quick else 8):
